@@ -1342,7 +1342,7 @@ def run(ctx):
         for d, sv in zip((UNARY, BINARY, TERNARY), saved): d.clear(); d.update(sv)
         shapes.__defaults__[0].clear()
     n_enum = len(programs)
-    for _ in range(ctx.scale(400, 6000)):
+    for _ in range(ctx.scale(300, 6000)):
         programs.append(rand_program(ctx.rng))
     ctx.extra['enumerated'] = {'full_grammar_up_to_size': full_k, 'control_flow_grammar_up_to_size': cf_k, 'programs_enumerated': n_enum, 'random_programs': len(programs) - n_enum}
     size = 4000 if interpreted else max(100, len(programs) // 96)
